@@ -30,6 +30,7 @@ import (
 	"net"
 	"os"
 	"runtime"
+	"runtime/debug"
 	"strconv"
 	"strings"
 	"sync"
@@ -460,14 +461,23 @@ func pullGoroutines() int64 {
 	return cnt
 }
 
-func socketFds() int64 {
-	ents, err := os.ReadDir("/proc/self/fd")
+// open client-side connections to the camera: sockets of this network namespace whose remote end is the
+// camera's listening port and that still belong to a process (inode != 0; a closed socket lingering in
+// FIN_WAIT / TIME_WAIT has inode 0).  The port is an ephemeral listener of this process, so every such
+// socket is one the pull client opened.
+func clientConns(port int) int64 {
+	data, err := os.ReadFile("/proc/net/tcp")
 	if err != nil {
 		return -1
 	}
+	want := fmt.Sprintf("0100007F:%04X", port)
 	n := int64(0)
-	for _, e := range ents {
-		if l, err := os.Readlink("/proc/self/fd/" + e.Name()); err == nil && strings.HasPrefix(l, "socket:") {
+	for _, line := range strings.Split(string(data), "\n") {
+		f := strings.Fields(line)
+		if len(f) < 10 || f[2] != want {
+			continue
+		}
+		if f[9] != "0" {
 			n++
 		}
 	}
@@ -504,6 +514,9 @@ func setup() {
 			}
 		}
 		config.VerifSetNetTimeout(netTimeout)
+		// a leaked connection that nothing references any more would be closed by the finalizer of its
+		// net.Conn at the next garbage collection: collect only between cases so that it stays visible
+		debug.SetGCPercent(-1)
 		// a port nobody listens on: bind, remember, close
 		l, err := net.Listen("tcp", "127.0.0.1:0")
 		if err != nil {
@@ -524,7 +537,6 @@ type world struct {
 	cfg     cfgT
 	cam     *camera
 	path    string
-	baseFds int64
 	base    int64 // stats.RtspConns active at the start of the case
 }
 
@@ -548,10 +560,7 @@ func (w *world) routeURL(refuse bool) string {
 }
 
 func (w *world) resources() (conn, registered, counter, gor int64) {
-	fds := socketFds() - w.baseFds - int64(atomic.LoadInt32(&w.cam.open))
-	if fds > 0 {
-		conn = fds
-	}
+	conn = clientConns(w.cam.ln.Addr().(*net.TCPAddr).Port)
 	if media.Get(w.path) != nil {
 		registered = 1
 	}
@@ -737,6 +746,7 @@ func newCamera(sdp string) *camera {
 
 func runCase(c Val) Val {
 	setup()
+	runtime.GC()
 	cf := c.At(0)
 	cfg := cfgT{creds: cf.At(0).Int(), tracks: cf.At(1).Int(), sdpkind: cf.At(2).Int(), urlkind: cf.At(3).Int(),
 		keepalive: cf.At(4).Bool(), routed: cf.At(5).Bool()}
@@ -746,7 +756,6 @@ func runCase(c Val) Val {
 	defer cam.ln.Close()
 	time.Sleep(time.Millisecond)
 	w := &world{cfg: cfg, cam: cam, path: "/c20/cam", base: stats.RtspConns.GetSample().Active}
-	w.baseFds = socketFds()
 	outs := []Val{}
 	for _, r := range c.At(1).List() {
 		outs = append(outs, w.round(r))
@@ -758,6 +767,7 @@ func runCase(c Val) Val {
 // observation = (answers live registered member conns counter goroutines final)
 func concCase(c Val) Val {
 	setup()
+	runtime.GC()
 	n := int(c.At(0).Int())
 	delays := c.At(2).List()
 	media.VerifResetRegistry()
@@ -768,7 +778,6 @@ func concCase(c Val) Val {
 	cam.kick = make(chan struct{})
 	defer cam.ln.Close()
 	w := &world{cfg: cfgT{creds: 1, routed: true}, cam: cam, path: "/c20/cam", base: stats.RtspConns.GetSample().Active}
-	w.baseFds = socketFds()
 	route.Save(&route.Route{Pattern: w.path, URL: w.routeURL(false), KeepAlive: true})
 	var arrivals int32
 	verifhook.SetPoint(func(name string, id uint32) {
